@@ -14,12 +14,13 @@ pub mod c12;
 pub mod c13;
 pub mod c14;
 pub mod c15;
+pub mod c16;
 pub mod c17;
 pub mod c18;
 pub mod c19;
 pub mod c20;
 
-pub const ALL: &[&str] = &["C01", "C02", "C03", "C04", "C05", "C06", "C07", "C08", "C09", "C10", "C11", "C12", "C13", "C14", "C15", "C17", "C18", "C19", "C20"];
+pub const ALL: &[&str] = &["C01", "C02", "C03", "C04", "C05", "C06", "C07", "C08", "C09", "C10", "C11", "C12", "C13", "C14", "C15", "C16", "C17", "C18", "C19", "C20"];
 
 pub fn get(id: &str, tier: Tier) -> Option<Prop> {
   Some(match id {
@@ -38,6 +39,7 @@ pub fn get(id: &str, tier: Tier) -> Option<Prop> {
     "C13" => c13::prop(tier),
     "C14" => c14::prop(tier),
     "C15" => c15::prop(tier),
+    "C16" => c16::prop(tier),
     "C17" => c17::prop(tier),
     "C18" => c18::prop(tier),
     "C19" => c19::prop(tier),
